@@ -109,6 +109,17 @@ CHECKS = {
             "Acceptance oracle is the clang 14 binary with the same arguments (-fno-spell-checking), calibrated per header on the "
             "unmutated text; splice and identifier-substitution operators of the design are not built; quick tier takes every 16th header.",
             "6/C12"),
+    "C06": ("exploration",
+            "exhaustive enumeration of the record family (<=2 members x attributes x struct/union, member-aligned variants) x 8 "
+            "targets x assertion forms x namespaces; assertions parsed back from the syn inventory and compared with clang's "
+            "constant tables per target; on/off comparison of everything else",
+            "For every record and target the real generator is run with --target=T; each record definition must carry a size, an "
+            "alignment and one offset assertion per named non-bit-field member, with exactly the numbers `clang --target=T` folds "
+            "for sizeof/_Alignof/offsetof; concrete template instantiations must have size+alignment assertions; with layout tests "
+            "off no assertion item may remain and every other item must be token-identical.",
+            "__int128 is left out (absent on 32-bit targets); members of anonymous nested records are checked for presence of "
+            "their assertion, not for the number; foreign-target numbers come from constant folding, nothing is executed.",
+            "6/C06"),
 }
 
 NOT_YET = "check not built yet in this round (see DESIGN.md section 10a for the plan)"
